@@ -127,6 +127,16 @@ func (s *Session) ArmCrash(n int, after bool) {
 	s.plan.CrashAfter = after
 }
 
+// ArmError makes the n-th mutating step counted from now fail once with err
+// (the step is not performed).
+func (s *Session) ArmError(n int, err error) {
+	s.plan.ErrStep = s.matched + n
+	s.plan.ErrOps = nil
+	s.plan.ErrSticky = false
+	s.plan.Err = err
+	s.errOn = false
+}
+
 // Dead reports whether the simulated process has died.
 func (s *Session) Dead() bool { return s.dead }
 
